@@ -2,12 +2,13 @@
    Only ExtrOcamlBasic's directives are used; numbers stay as extracted inductives. *)
 Require Extraction.
 Require Import ExtrOcamlBasic.
-From RxModel Require Import Derived Ops2 Subject.
-From RxSpec Require Import DerivedSpec Ops2Spec SubjectSpec BehaviorSpec.
+From RxModel Require Import Derived Ops2 Subject GroupBy.
+From RxSpec Require Import DerivedSpec Ops2Spec SubjectSpec BehaviorSpec GroupBySpec.
 Extraction Language OCaml.
 Extraction "model.ml"
   apply_fn apply_fn2 pred_of opt_of
   run_src run_hot run_cold expand_all src_script slot
   uchain_spec src_spec wf
   run_op2 spec_op2 first_side
-  srun subj0 arun asub0 size_ok brun bsubj0 abrun sops_of.
+  srun subj0 arun asub0 size_ok brun bsubj0 abrun sops_of
+  run_group_by first_keys group_trace announced flattened outer_term announced_first items_of term_of term_evs val_eqb.
